@@ -24,6 +24,9 @@ type Effects struct {
 	WritesReceiver []string
 	// FreshResult lists callees whose result is freshly allocated memory.
 	FreshResult []string
+	// ResultAliasesDst lists external callees of the append family: the result is (a slice of) the
+	// first argument when that has room, and fresh memory when it is nil.
+	ResultAliasesDst []string
 
 	memo    map[*ssa.Function]*effRes
 	methods map[string][]*ssa.Function
@@ -58,6 +61,7 @@ func DefaultEffects(p *Program) *Effects {
 			"sort.Sort", "sort.Stable", "sort.Slice", "sort.SliceStable", "sort.Strings", "sort.Ints",
 			"bytes.Buffer.*", "hash.Hash.Write", "hash.Hash.Sum", "hash.Hash.Reset", "io.Writer.Write", "sha3.state.*", "sha3.KeccakState.*", "crypto.KeccakState.*",
 		},
+		ResultAliasesDst: []string{"snappy.Decode", "snappy.Encode", "secretbox.Seal", "secretbox.Open", "strconv.Append*", "hex.AppendEncode"},
 		FreshResult: []string{"big.NewInt", "sha3.NewLegacyKeccak256", "sha3.NewKeccak256", "sha256.New", "ripemd160.New", "big.Int.Set*", "big.Int.Add", "big.Int.Sub", "big.Int.Mul", "big.Int.Div", "big.Int.Mod", "big.Int.Exp", "big.Int.Neg", "big.Int.Abs", "big.Int.Lsh", "big.Int.Rsh", "big.Int.And", "big.Int.Or", "big.Int.Xor", "big.Int.Not", "big.Int.Quo"},
 		memo:        map[*ssa.Function]*effRes{},
 	}
@@ -164,6 +168,9 @@ func (e *Effects) fresh(v ssa.Value, seen map[ssa.Value]bool) bool {
 				return e.fresh(x.Call.Args[0], seen)
 			}
 			return false
+		}
+		if matchAny(e.ResultAliasesDst, n) && len(x.Call.Args) > 0 {
+			return e.fresh(x.Call.Args[0], seen)
 		}
 		if matchAny(e.FreshResult, n) {
 			if len(x.Call.Args) > 0 && matchAny(e.WritesReceiver, n) {
